@@ -11,6 +11,8 @@ import VaxisModel.Props.C07
 import VaxisModel.Props.C01Display
 import VaxisModel.Lemmas.C12Vocab
 import VaxisModel.Props.C01Clip
+import VaxisModel.Lemmas.C12Draw
+import VaxisModel.Props.C05Draw
 
 namespace VaxisModel.Props.C12
 open VaxisModel.Model.Render VaxisModel.Spec VaxisModel.Spec.Display VaxisModel.Lemmas.RenderGate
@@ -178,7 +180,7 @@ theorem emu_history_shows (dec : String → G) (cw : String → Nat) (hsp : cw "
     (rows cols : Nat) :
     ∀ (fis : List FrameIn) (s : HState) (e : Emu), Linked dec cw s e rows cols → Agree cw emuCaps s.t s.last →
       (∀ fi ∈ fis, FrameInOk cw emuCaps rows cols fi ∧ EmuFrameOk dec cw fi) → ∀ fi, fis.getLast? = some fi →
-      ∃ e', runFrames dec cw s e fis = .ok e' ∧ Shows dec cw fi e' := by
+      ∃ e', runFrames dec cw s e fis = .ok e' ∧ Shows dec cw fi e' ∧ Lemmas.Emu.EmuInv e' rows cols := by
   intro fis
   induction fis with
   | nil => intro s e _ _ _ fi h; simp at h
@@ -190,7 +192,7 @@ theorem emu_history_shows (dec : String → G) (cw : String → Nat) (hsp : cw "
     | nil =>
       simp only [List.getLast?_singleton, Option.some.injEq] at hlast
       subst hlast
-      exact ⟨e1, by simp only [runFrames, hr1, bind, Except.bind], sh1⟩
+      exact ⟨e1, by simp only [runFrames, hr1, bind, Except.bind], sh1, hl1.sim.inv⟩
     | cons b rest' =>
       rw [List.getLast?_cons_cons] at hlast
       obtain ⟨e2, hr2, sh2⟩ := ih (stepH cw emuCaps s a) e1 hl1 ag1 (fun fi h => hok fi (by simp [h])) fi hlast
@@ -220,7 +222,8 @@ theorem emu_shows_application (dec : String → G) (cw : String → Nat) (hsp : 
     (fi0 : FrameIn) (fis : List FrameIn) (hr0 : fi0.refresh = true)
     (hok : ∀ fi ∈ fi0 :: fis, FrameInOk cw emuCaps rows cols fi ∧ EmuFrameOk dec cw fi)
     (fi : FrameIn) (hlast : (fi0 :: fis).getLast? = some fi) :
-    ∃ e', runFrames dec cw (startState cols rows) e0 (fi0 :: fis) = .ok e' ∧ Shows dec cw fi e' := by
+    ∃ e', runFrames dec cw (startState cols rows) e0 (fi0 :: fis) = .ok e' ∧ Shows dec cw fi e' ∧
+      Lemmas.Emu.EmuInv e' rows cols := by
   have hl : Linked dec cw (startState cols rows) e0 rows cols :=
     ⟨start_ready cols rows, by simp [CursorAs, startState, startDisplay], h0⟩
   obtain ⟨e1, hr1, hl1, ag1, sh1⟩ := emu_frame_shows dec cw hsp hd hemp rows cols (startState cols rows) e0 fi0 hl
@@ -229,7 +232,7 @@ theorem emu_shows_application (dec : String → G) (cw : String → Nat) (hsp : 
   | nil =>
     simp only [List.getLast?_singleton, Option.some.injEq] at hlast
     subst hlast
-    exact ⟨e1, by simp only [runFrames, hr1, bind, Except.bind], sh1⟩
+    exact ⟨e1, by simp only [runFrames, hr1, bind, Except.bind], sh1, hl1.sim.inv⟩
   | cons b rest =>
     rw [List.getLast?_cons_cons] at hlast
     obtain ⟨e2, hr2, sh2⟩ := emu_history_shows dec cw hsp hd hemp rows cols (b :: rest) _ e1 hl1 ag1
@@ -292,7 +295,7 @@ example :
       · exact ⟨⟨rfl, by decide, hfits _ (Or.inr rfl), fun r hr c hc => (hcells _ (Or.inr rfl) r hr c hc).1,
           fun _ => by decide⟩, fun r hr c hc => (hcells _ (Or.inr rfl) r hr c hc).2, by decide⟩)
     fi1 rfl
-  exact ⟨e0, e1, e', h0, h1, hr, hsh⟩
+  exact ⟨e0, e1, e', h0, h1, hr, hsh.1⟩
 
 /-! ### The same for the renderer as it is now (after the F02 repair): no "glyphs fit" hypothesis -/
 
@@ -346,7 +349,8 @@ theorem emu_shows_application_now (dec : String → G) (cw : String → Nat) (hs
     (fi0 : FrameIn) (fis : List FrameIn) (hr0 : fi0.refresh = true)
     (hok : ∀ fi ∈ fi0 :: fis, C01Clip.FrameInOkC cw emuCaps rows cols fi ∧ EmuFrameOk dec cw fi)
     (fi : FrameIn) (hlast : (fi0 :: fis).getLast? = some fi) :
-    ∃ e', runFramesC dec cw (startState cols rows) e0 (fi0 :: fis) = .ok e' ∧ ShowsC dec cw fi e' := by
+    ∃ e', runFramesC dec cw (startState cols rows) e0 (fi0 :: fis) = .ok e' ∧ ShowsC dec cw fi e' ∧
+      Lemmas.Emu.EmuInv e' rows cols := by
   rw [runFramesC_eq]
   obtain ⟨e', hr, hs⟩ := emu_shows_application dec cw hsp hd hemp rows cols e0 h0 (C01Clip.clipIn cw fi0)
     (fis.map (C01Clip.clipIn cw)) hr0
@@ -357,11 +361,12 @@ theorem emu_shows_application_now (dec : String → G) (cw : String → Nat) (hs
       exact ⟨C01Clip.clipIn_ok cw emuCaps hsp rows cols y (hok y hy).1, clipIn_emuOk dec cw hsp hd y (hok y hy).2⟩)
     (C01Clip.clipIn cw fi)
     (by rw [← List.map_cons, List.getLast?_map, hlast]; rfl)
-  refine ⟨e', by simpa [List.map_cons] using hr, ?_⟩
+  refine ⟨e', by simpa [List.map_cons] using hr, ?_, hs.2⟩
+  have hs1 := hs.1
   unfold ShowsC
-  unfold Shows at hs
+  unfold Shows at hs1
   rw [Lemmas.RenderClip.expectedC_eq]
-  exact hs
+  exact hs1
 
 def gridF02 : Grid := [[({ g := "61" } : Cell), { g := "57", style := { fg := 16777217 } }]]
 def fiF02 : FrameIn := ⟨true, gridF02, {}, ""⟩
@@ -390,6 +395,112 @@ example :
         simp only [List.mem_cons, List.not_mem_nil, or_false] at hc
         rcases hc with rfl | rfl <;> exact ⟨by decide, by decide, by decide⟩)
     fiF02 rfl
-  exact ⟨e0, e1, e', h0, h1, hr, hsh⟩
+  exact ⟨e0, e1, e', h0, h1, hr, hsh.1⟩
+
+/-! ### Draw into a host window of the same size -/
+
+open VaxisModel.Model.EmuDraw VaxisModel.Lemmas.C12Draw VaxisModel.Lemmas.EmuDraw in
+/-- The application's screen has no `poison` cell. -/
+theorem expected_noPoison (cw : String → Nat) (caps : Caps) (g : Grid) :
+    ∀ r ∈ Expected.expected cw caps g, Lemmas.C12Draw.NoPoison r := by
+  intro r hr
+  obtain ⟨l, _, rfl⟩ := List.mem_map.mp hr
+  have : ∀ (l : List Cell) (k : Nat), Lemmas.C12Draw.NoPoison (Expected.expectedRow cw caps k l) := by
+    intro l
+    induction l with
+    | nil => intro k x hx; cases k <;> simp [Expected.expectedRow] at hx
+    | cons c cs ih =>
+      intro k x hx
+      cases k with
+      | zero =>
+        simp only [Expected.expectedRow, List.mem_cons] at hx
+        rcases hx with rfl | hx
+        · unfold Expected.expectedCell; simp only; split <;> nofun
+        · exact ih _ x hx
+      | succ k =>
+        simp only [Expected.expectedRow, List.mem_cons] at hx
+        rcases hx with rfl | hx
+        · nofun
+        · exact ih _ x hx
+  exact this l 0
+
+open VaxisModel.Model.EmuDraw VaxisModel.Lemmas.C12Draw VaxisModel.Lemmas.EmuDraw in
+/-- **Draw reproduces the screen in a host window of the same size.** If the emulator's active grid
+    shows the screen `D` (what the composition theorems deliver: `D` = the application's screen), then
+    `Draw` into a `cols × rows` host window does not resize, and its `SetCell` calls are, row by row,
+    exactly one call per glyph cell of `D` (blanks included) and none for the cells covered by a wide
+    glyph; each call carries a cell that shows that glyph (grapheme bytes, width — 0 = "measure" for a
+    never written cell —, displayed style, hyperlink and parameters: `HostRel`) and lands on the host
+    cell with the same coordinates. -/
+theorem draw_reproduces_screen (dec : String → G) (cw : String → Nat) (g : Grid) (e : Emu) (rows cols : Nat)
+    (hinv : Lemmas.Emu.EmuInv e rows cols) (hd : Lemmas.Emu.Dim rows cols)
+    (hrel : GridRel dec (Expected.expected cw emuCaps g) e.active) (focused : Bool) :
+    ∃ per : List (List DrawCall),
+      draw true Model.Emu.Fixes.current e cols rows focused =
+        .ok ({ e with hasVx := true }, per.flatten, shownCursor true e focused) ∧
+      per.length = rows ∧
+      ∀ (k : Nat) (l : List DrawCall), per[k]? = some l →
+        ∃ drow, (Expected.expected cw emuCaps g)[k]? = some drow ∧
+          (∀ call ∈ l, ∃ (j : Nat) (d : DCell), call.col = (j : Int) ∧ call.row = (k : Int) ∧ drow[j]? = some d ∧
+            d ≠ .cont ∧ HostRel dec d call.cell ∧
+            setCellChain cols rows [Win.root cols rows] call.col call.row = some ((j : Int), (k : Int))) ∧
+          (∀ (j : Nat) (d : DCell), drow[j]? = some d → d ≠ .cont → ∃ call ∈ l, call.col = (j : Int)) := by
+  obtain ⟨per, h1, h2, h3⟩ := C05Draw.draw_covers_rows hinv hd
+  have hsz : ¬ ((cols : Int) ≠ e.width ∨ (rows : Int) ≠ e.height) := by
+    rw [Lemmas.Emu.width_eq hinv hd.r1, Lemmas.Emu.height_eq hinv]; omega
+  refine ⟨per, by simp only [draw, hsz, if_false, h1, bind, Except.bind], h2, ?_⟩
+  intro k l hk
+  obtain ⟨line, hline, hwalk⟩ := h3 k l hk
+  have hga := Lemmas.Emu.active_ok hinv
+  have hkr : k < rows := by
+    rcases Nat.lt_or_ge k per.length with h | h
+    · omega
+    · rw [List.getElem?_eq_none h] at hk; cases hk
+  have hline' : e.active[k]? = some line := by
+    unfold Model.Emu.getI at hline
+    simp only [Int.natCast_nonneg, if_true, Int.toNat_natCast] at hline
+    cases hx : e.active[k]? with
+    | none => rw [hx] at hline; cases hline
+    | some x => rw [hx] at hline; cases hline; rfl
+  have hlen : line.length = cols := hga.rowLen _ (List.mem_of_getElem? hline')
+  have hdl : k < (Expected.expected cw emuCaps g).length := by rw [hrel.1, hga.len]; exact hkr
+  have hdk : (Expected.expected cw emuCaps g)[k]? = some (Expected.expected cw emuCaps g)[k] :=
+    List.getElem?_eq_getElem hdl
+  have hmem := List.getElem_mem hdl
+  have hrr := hrel.2 k _ _ hdk hline'
+  obtain ⟨w1, w2⟩ := walk_shows dec _ line k cols hrr hlen (expected_noPoison cw emuCaps g _ hmem) l 0
+    (by simpa using hwalk) (by simpa using C01Display.expected_wf cw emuCaps g _ hmem)
+  refine ⟨_, hdk, ?_, fun j d hj hn => w2 j d (Nat.zero_le _) hj hn⟩
+  intro call hc
+  obtain ⟨j, d, e1, _, e3, e4, e5, e6⟩ := w1 call hc
+  refine ⟨j, d, e1, e5, e3, e4, e6, ?_⟩
+  have hjc : j < cols := by
+    rcases Nat.lt_or_ge j (Expected.expected cw emuCaps g)[k].length with h | h
+    · rw [hrr.1, hlen] at h; exact h
+    · rw [List.getElem?_eq_none h] at e3; cases e3
+  rw [e1, e5]
+  have a2 : ¬ ((k : Int) < 0 ∨ (j : Int) < 0) := by omega
+  have a6 : ¬ ((j : Int) < 0 ∨ (k : Int) < 0) := by omega
+  have a7 : ¬ ((j : Int) ≥ (cols : Int)) := by omega
+  have a8 : ¬ ((k : Int) ≥ (rows : Int)) := by omega
+  simp only [setCellChain, Win.root, a2, a6, a7, a8, if_false, Int.add_zero, or_self]
+
+/-- The cursor Draw shows in a focused host window is the application's cursor. -/
+theorem draw_shows_cursor (dec : String → G) (cw : String → Nat) (fi : FrameIn) (e : Emu) (rows cols : Nat)
+    (hinv : Lemmas.Emu.EmuInv e rows cols) (hs : Shows dec cw fi e)
+    (hcol : fi.cursor.visible = true → fi.cursor.col < cols) :
+    Model.EmuDraw.shownCursor true e true =
+      (if fi.cursor.visible then some (fi.cursor.col, fi.cursor.row) else none) := by
+  have hc := hs.2
+  unfold Model.EmuDraw.shownCursor
+  split at hc
+  · rename_i hv
+    obtain ⟨c1, c2, c3, _⟩ := hc
+    have := hinv.right; have := hinv.colHi
+    have hlt := hcol hv
+    have hng : ¬ (fi.cursor.col > e.right) := by omega
+    simp only [c1, Bool.and_self, if_true, hv, Bool.true_and, decide_eq_true_eq, c2, c3, hng, if_false]
+  · rename_i hv
+    simp [hc, hv]
 
 end VaxisModel.Props.C12
